@@ -27,7 +27,7 @@ def register(gen, T):
                                        "ast/src/ast_globals.rs", "formatter/src/formatter.rs", "src/compile.rs",
                                        "ir/src/ir_module.rs", "hlsl/src/names.rs", "msl/src/names.rs",
                                        "ir/src/intrinsic_data.rs", "typer/src/typer/pipelines.rs", "typer/src/typer/globals.rs",
-                                       "ir/src/simplify_cbuffers.rs", "msl/src/generator.rs"]),
+                                       "ir/src/simplify_cbuffers.rs", "msl/src/generator.rs", "typer/src/typer/functions.rs"]),
                "open RsslVerif.Gen.SlotTables RsslVerif.Gen.CompileTables\n\n"]
         out.append("/-- `DescriptorType` (ir/src/export.rs) -/\ninductive DescT where\n" + "".join(f"  | {d}\n" for d in descs) +
                    "  deriving DecidableEq, Repr, Inhabited\n\n")
@@ -197,6 +197,15 @@ def register(gen, T):
             "bufferAttributeIsGroup": r'ast::ScopedIdentifier::trivial\(&format!\("set\{\}", i\)\), Vec::from\(\[ast::Attribute \{ name: Vec::from\(\[Located::none\(String::from\("buffer"\)\)\]\), arguments: Vec::from\(\[Located::none\(ast::Expression::Literal\( ast::Literal::IntUntyped\(i as u64\), \)\)\]\)',
             "structNameByGroup": r'let struct_name = ARGUMENT_BUFFER_NAMES\[i\];',
             "finishKeepsOrder": r'let desc = binding_layout\.finish\(\); Ok\(\(defs, desc\)\)',
+            # since fix "an entry point that uses a global without a binding slot is an error on Metal": every extern global a
+            # stage entry point requires (static samplers are remapped to Static) is passed as `set<i>.<name>`; one that is in
+            # no argument buffer is refused
+            "unboundGlobalRefused": r'ImplicitFunctionParameter::Global\(ref gid\) => \{ let var = &context\.module\.global_registry\[gid\.0 as usize\]; '
+                                    r'let remapped_class = match var\.storage_class \{ ir::GlobalStorage::Extern if var\.static_sampler\.is_some\(\) => \{ ir::GlobalStorage::Static \} v => v, \}; '
+                                    r'match remapped_class \{ ir::GlobalStorage::Extern => \{ match context\.global_variable_modes\.get\(gid\)\.unwrap\(\) \{ GlobalMode::Parameter \{ \.\. \} => \{ '
+                                    r'let set_index = match global_to_set_index\.get\(gid\) \{ Some\(set_index\) => set_index, None => return Err\(GenerateError::UnboundGlobal\), \};',
+            "setIndexMapFromArgumentBuffers": r'let mut global_to_set_index = HashMap::new\(\); for \(i, argument_buffer\) in &mut binding_layout\.0\.iter\(\)\.enumerate\(\) \{ for argument in &argument_buffer\.0 \{ global_to_set_index\.insert\(argument\.id, i\); \} \}',
+            "stageArgumentsFromRequiredGlobals": r'let parameters_for_globals = context \.function_required_globals \.get\(&stage\.entry_point\) \.unwrap\(\) \.clone\(\); for param in parameters_for_globals \{ match param \{',
         }
         out.append("/-- syntactic facts about msl generate_pipeline (regexes over the normalised source) -/\nstructure MslPipelineFacts where\n"
                    + "".join(f"  {k} : Bool\n" for k in gp_facts) + "  deriving DecidableEq, Repr\n\n")
@@ -266,9 +275,25 @@ def register(gen, T):
         attr_shape = all(re.search(rx, fa) for rx in [
             r"output\.push\('\['\); if attr\.two_square_brackets \{ output\.push\('\['\); \}",
             r'for name in main \{ output\.push_str\(name\); output\.push_str\("::"\); \} output\.push_str\(last\);',
-            r"output\.push\('\('\); for expr in main \{ format_expression\(expr, output, context\)\?; output\.push_str\(\", \"\); \} format_expression\(last, output, context\)\?; output\.push\('\)'\);",
+            # since fix "parenthesise comma expressions in default arguments and other lists" the arguments are printed at
+            # comma-list precedence (17): only a comma expression gets parentheses
+            r"output\.push\('\('\); for expr in main \{ format_subexpression\(expr, 17, OperatorSide::CommaList, output, context\)\?; output\.push_str\(\", \"\); \} format_subexpression\(last, 17, OperatorSide::CommaList, output, context\)\?; output\.push\('\)'\);",
             r"if attr\.two_square_brackets \{ output\.push\('\]'\); \} output\.push\('\]'\);"])
         out.append(f"/-- format_attribute prints `[[a::b(x, y)]]` -/\ndef attributeShapeAsModelled : Bool := {b(attr_shape)}\n\n")
+        # the arguments of the binding attributes are `Literal::IntUntyped(u64)` (facts vkBindingNameAndArgs, inlineMemberIsVkOffset,
+        # idAttributeIsIndex, bufferAttributeIsGroup): precedence 0 < 17, so format_subexpression prints the bare literal
+        fs = normws(fn_body(formatter, "format_subexpression"))
+        gp_prec = normws(fn_body(formatter, "get_expression_precedence"))
+        catch_all = "ast::Expression::Literal(_) | ast::Expression::Identifier(_) => 0,"
+        head = gp_prec[:gp_prec.find(catch_all)] if catch_all in gp_prec else None
+        bare_literal = (bool(re.search(r'let prec = get_expression_precedence\(expr\)\?; let requires_paren = match prec\.cmp\(&outer_precedence\) \{ '
+                                       r'std::cmp::Ordering::Greater => true, std::cmp::Ordering::Less => false,', fs))
+                        and bool(re.search(r"if requires_paren \{ output\.push\('\('\) \} match expr \{ ast::Expression::Literal\(lit\) => format_literal\(lit, output, context\)\?,", fs))
+                        # the arms before the catch-all `Literal(_) => 0` (negative signed / float literals) do not name IntUntyped
+                        and head is not None and head.startswith("let prec = match expr {") and "IntUntyped" not in head
+                        and "Literal(_)" not in head and "_ =>" not in head)
+        out.append(f"/-- an untyped integer literal as attribute argument is printed without parentheses (precedence 0 below the\n"
+                   f"    comma-list precedence 17 of format_subexpression) -/\ndef attributeArgumentLiteralsBare : Bool := {b(bare_literal)}\n\n")
 
         # generate_register_annotation / generate_vk_binding_annotation / inline constant buffers (hlsl)
         gr = normws(fn_body(hlsl, "generate_register_annotation"))
@@ -376,6 +401,12 @@ def register(gen, T):
             "lastNumThreadsAttributeWins": bool(re.search(r'for attribute in &function_impl\.attributes\.clone\(\) \{ if let ir::FunctionAttribute::NumThreads\(x, y, z\) = attribute \{', ast_))
                                            and bool(re.search(r'thread_group_size = Some\(\(x, y, z\)\); \} \} def\.stages\.push\(ir::PipelineStage \{ stage, entry_point: func_id, thread_group_size, \}\);', ast_))
                                            and "break" not in ast_,
+            # since fix "a function attribute can be given only once": the second attribute of a kind is refused
+            "functionAttributeKindGivenOnce": bool(re.search(
+                r'let mut ir_attributes = Vec::<ir::FunctionAttribute>::new\(\); for ast_attribute in ast_attributes \{ let ir_attribute = parse_function_attribute\(ast_attribute, context\)\?; '
+                r'if ir_attributes \.iter\(\) \.any\(\|prev\| std::mem::discriminant\(prev\) == std::mem::discriminant\(&ir_attribute\)\) \{ let name = ast_attribute\.name\.last\(\)\.unwrap\(\); '
+                r'return Err\(TyperError::FunctionAttributeDuplicate\( name\.node\.clone\(\), name\.location, \)\); \} ir_attributes\.push\(ir_attribute\); \} Ok\(ir_attributes\)$',
+                normws(fn_body(T.src("typer/src/typer/functions.rs"), "parse_function_attributes")))),
             "staticSamplerWithIndexRefused": bool(re.search(r'if gv_ir\.static_sampler\.is_some\(\) && gv_ir\.lang_slot\.index\.is_some\(\) \{ return Err\(TyperError::StaticSamplerUnexpectedBindingIndex\(', gl)),
             "vkBindingAlwaysSetsTheIndex": len(re.findall(r'result\.binding_index_override = Some\(binding_index\);', gl)) == 2,
             "hlslCbufferNameIsSourceName": bool(re.search(r'fn get_constant_buffer_name\(&self, id: ir::ConstantBufferId\) -> Result<&str, GenerateError> \{ match self\.module\.cbuffer_registry\.get\(id\.0 as usize\) \{ Some\(cd\) => Ok\(cd\.name\.as_str\(\)\),', hl_fn)),
